@@ -36,7 +36,7 @@ static rc::Gen<Op> gParam(bool bad) {
     auto grp = g::weightedOneOf<long long>({{2, g::just<long long>(0)}, {2, g::just<long long>(1)}, {1, g::just<long long>(2)}, {6, sized(3, 9)}});
     auto name = bad ? g::weightedOneOf<long long>({{12, sized(0, 14)}, {1, g::just<long long>(-1)}}) : sized(0, 14);
     auto type = bad ? g::weightedOneOf<long long>({{12, uni(0, 2)}, {1, g::just<long long>(3)}}) : uni(0, 2);
-    auto delta = bad ? g::weightedOneOf<long long>({{5, g::just<long long>(0)}, {2, g::elementOf(std::vector<long long>{-1, 1, 2, -2, 7})}})
+    auto delta = bad ? g::weightedOneOf<long long>({{5, g::just<long long>(0)}, {2, g::elementOf(std::vector<long long>{-1, 1, 2, -2, 7})}, {1, g::just<long long>(-999999)}})
                      : g::just<long long>(0);
     // nd == 0: delta is the element count
     auto nd = g::weightedOneOf<long long>({{4, g::just<long long>(0)}, {3, g::just<long long>(1)}, {3, g::just<long long>(2)}, {2, g::just<long long>(3)}, {2, uni(4, 7)}});
@@ -45,6 +45,12 @@ static rc::Gen<Op> gParam(bool bad) {
                                              ndv == 0 ? g::weightedOneOf<long long>({{3, g::just<long long>(1)}, {3, sized(0, 12)}, {1, g::just<long long>(0)}}) : delta,
                                              g::just(ndv)};
         for (long long i = 0; i < ndv; ++i) a.push_back(dimEntry());
+        if (bad && ndv >= 5) {
+            // occasionally only large power-of-two entries: the product overflows 32 bits
+            std::vector<rc::Gen<long long>> b(a.begin(), a.begin() + 8);
+            for (long long i = 0; i < ndv; ++i) b.push_back(g::elementOf(std::vector<long long>{16, 32, 64, 128, 128, 255}));
+            return g::oneOf(op("param", a), op("param", a), op("param", b));
+        }
         return op("param", a);
     });
 }
@@ -122,7 +128,7 @@ rc::Gen<std::vector<Op>> genScriptOps(const ScriptCfg &c) {
         return g::mapcat(uni(0, 99), [o, pct](long long k) { return k < pct ? one(o) : g::just(std::vector<Op>()); });
     };
     auto pr = maybe(op("prate", {uni(0, kNumRates - 1)}), 88), ar = maybe(op("arate", {sized(0, 9)}), 80);
-    auto seg = [&]() { return ops(gSetupOp(c, false), c.maxSetup / 3 + 1); };
+    auto seg = [c]() { return ops(gSetupOp(c, false), c.maxSetup / 3 + 1); };
     // a burst of declarations so that most objects carry points and/or channels
     auto declP = ops(op("declp", {nameIdx(), trail()}), c.maxFrames > 20 ? 12 : 5);
     auto declA = ops(op("decla", {nameIdx(), trail()}), c.maxFrames > 20 ? 8 : 4);
@@ -153,6 +159,13 @@ static ScriptCfg cfgFor(const std::string &id, int tier) {
     return c;
 }
 
-rc::Gen<Case> genScriptCase(const std::string &id, int tier) { return asCase(genScriptOps(cfgFor(id, tier))); }
+rc::Gen<Case> genScriptCase(const std::string &id, int tier) {
+    if (id == "C11") {
+        ScriptCfg c = cfgFor(id, tier); c.fillAtEnd = false; c.maxFrames = tier ? 12 : 6; c.callerReuse = false;
+        auto look = op("look", {uni(0, 12), uni(0, 5), sized(0, 400)});
+        return asCase(concat({genScriptOps(c), ops(look, tier ? 60 : 30)}));
+    }
+    return asCase(genScriptOps(cfgFor(id, tier)));
+}
 
 } // namespace vf
